@@ -446,7 +446,7 @@ def check_hashseed(plan: dict[str, Any], bad: Any, stats: Any) -> None:
             [sys.executable, '-c', _HASHSEED_CODE, REPO,
              os.path.join(VERIF, 'stubs'), plan['target']],
             input=json.dumps(plan['configs']), capture_output=True,
-            text=True, env=env, timeout=300)
+            text=True, env=env, timeout=1500)
         if pr.returncode != 0:
             bad(f'{plan["prop"]}.query_raised', hashseed=hs,
                 error=pr.stderr[-600:])
